@@ -27,6 +27,12 @@ CASES = [
     ("proto/parserecv.py", "chan.data._type,", "chan.data.dtype,", "Fmt", "translator_site_missing_Fmt_chinfoEnc"),
     ("proto/iparse.py", "EDeviceChannelType.UB8.value: DsfmtItem(\n            2,\n            \"H\",\n            256.0,", "EDeviceChannelType.UB8.value: DsfmtItem(\n            2,\n            \"H\",\n            512.0,", "Types", "⟨12, 2, some .H, true, 9, true, 1⟩"),
     ("proto/iparse.py", 'msfmt_dict = {0: "", 1: "B", 2: "H", 4: "I", 8: "Q"}', 'msfmt_dict = {0: "", 1: "B", 2: "h", 4: "I", 8: "Q"}', "Types", "(2, some .h)"),
+    # repeat counts in format-table rows are not dropped: the row `3: "3B"` is the fallback rule itself (metaTable unchanged),
+    # any other counted row and a counted standard row are reported
+    ("proto/iparse.py", 'msfmt_dict = {0: "", 1: "B", 2: "H", 4: "I", 8: "Q"}', 'msfmt_dict = {0: "", 1: "B", 2: "H", 3: "3B", 4: "I", 8: "Q"}', "Types", "=UNCHANGED"),
+    ("proto/iparse.py", 'msfmt_dict = {0: "", 1: "B", 2: "H", 4: "I", 8: "Q"}', 'msfmt_dict = {0: "", 1: "B", 2: "H", 4: "2H", 8: "Q"}', "Types", "translator_site_missing_Types_metaTable"),
+    ("proto/iparse.py", 'msfmt_dict = {0: "", 1: "B", 2: "H", 4: "I", 8: "Q"}', 'msfmt_dict = {0: "", 1: "B", 2: "H", 3: "2B", 4: "I", 8: "Q"}', "Types", "translator_site_missing_Types_metaTable"),
+    ("proto/iparse.py", "EDeviceChannelType.UINT16.value: DsfmtItem(\n            2,\n            \"H\",", "EDeviceChannelType.UINT16.value: DsfmtItem(\n            2,\n            \"2B\",", "Types", "translator_site_missing_Types_table"),
     ("proto/parse.py", "            and decode.scale != 1\n", "", "Types", "def decDividesOnlyScaled : Bool := false"),
     ("dev.py", "self.dtype = self._type & 0x1F", "self.dtype = self._type & 0x0F", "Record", "def dtypeMask : Nat := 15"),
     ("dev.py", 'if name not in ["div", "en"]:', 'if name not in ["div", "en", "name"]:', "Record", 'def chanAllow : List String := ["div", "en", "name"]'),
